@@ -106,9 +106,14 @@ def r16a(P, R):
             else:
                 R.undecided("R16-a", "graphql-string:control-escape", "fixed-width \\uXXXX form: width not decoded", loc=ps.loc())
     # block string: the `\"""` escape literal is pushed
-    block_lits = [l for g in scope_fns(P, ps) for l in str_lits_in(g.body)]
-    R.check("R16-a", "graphql-blockstring:triple-quote", '\\"""' in block_lits,
-            'block strings escape `"""` as `\\"""`', 'neither %s nor a helper it calls ever emits the `\\"""` escape for block strings' % short(ps.path), loc=ps.loc())
+    scope_paths, _ = printer_scope(P)
+    block_lits = [l for p_ in scope_paths for l in str_lits_in(P.fns[p_].body)]
+    if not any(l.startswith('"""') or l.endswith('"""') for l in block_lits):
+        R.holds("R16-a", "graphql-blockstring:triple-quote", "the GraphQL printer emits no block strings", loc=ps.loc())
+    else:
+        R.check("R16-a", "graphql-blockstring:triple-quote", '\\"""' in block_lits,
+                'block strings escape `"""` as `\\"""`', 'the GraphQL printer opens block strings with `"""` but no function of it ever emits the `\\"""` escape',
+                loc=ps.loc())
     # JS template literal
     jwrite = P.fn("<sourcemap_writer::js_string_writer::JsStringWriter as sourcemap_writer::writer::SourceMapWriter>::write")
     # the escaping function, by role: the JsStringWriter function that dispatches on a `char` (today `write` itself; a helper
@@ -117,7 +122,26 @@ def r16a(P, R):
            and "::tests" not in f.path and not f.derived and matches_on_type(f, "char")]
     jw = esc[0] if len(esc) == 1 else jwrite
     ms = matches_on_type(jw, "char")
-    R.floor("R16-a", "char matches in JsStringWriter::write", len(ms), 1)
+    if not ms:
+        # no dispatch on a `char` (e.g. search-and-copy of unescaped runs): the table is read off the literals of the writer's
+        # module — a special character is escaped only if its escape sequence is written somewhere and the character is looked for
+        mod = [f for f in P.fns.values() if f.path.startswith(("sourcemap_writer::js_string_writer::", "<sourcemap_writer::js_string_writer::"))
+               and "::tests" not in f.path and not f.derived and (f.path in P.reachable([jwrite]))]
+        strs = {l for f in mod for l in str_lits_in(f.body)}
+        chars = set()
+        for f in mod:
+            for x in f.walk():
+                if x.get("lk") == "char" and isinstance(x.get("v"), str):
+                    chars.add(x["v"])
+                elif x.get("lk") == "byte" and isinstance(x.get("v"), int):
+                    chars.add(chr(x["v"]))
+        for ch, why in (("\\", "backslash starts an escape in template literals"),
+                        ("`", "backtick terminates the template literal"),
+                        ("{", "`${` starts a substitution")):
+            R.check("R16-a", "js-template:%s" % CHNAME[ch], ("\\" + ch) in strs and ch in chars, "%r is looked for and its escape is written (%s)" % (ch, why),
+                    "JsStringWriter::write never writes the escape of %r or never looks for it (%s)" % (ch, why), loc=jw.loc())
+        R.check("R16-a", "js-template:dollar-flag", "$" in chars, "`{` is escaped with regard to a preceding `$`",
+                "nothing in JsStringWriter::write looks at `$`: `{` cannot be escaped only after `$`", loc=jw.loc())
     for m in ms:
         explicit = {}
         for lits, guard, catch, arm in lit_table(m):
@@ -142,7 +166,8 @@ def r16a(P, R):
             flag_ids |= {x["local"] for x in subnodes(c) if x.get("k") == "Path" and "local" in x}
             cond_lits |= {x.get("v") for x in subnodes(c) if x.get("k") == "Lit"}
     flag_assigns = [n for n in jw.walk() if n.get("k") == "Assign" and n["l"].get("k") == "Path" and n["l"].get("local") in flag_ids]
-    R.floor("R16-a", "dollar-flag updates", len(flag_assigns), 1)
+    if flag_ids:
+        R.floor("R16-a", "dollar-flag updates", len(flag_assigns), 1)
     for n in flag_assigns:
         refs = [x for x in subnodes(n["r"]) if x.get("k") == "Path" and x.get("local") in flag_ids]
         lits = [x.get("v") for x in subnodes(n["r"]) if x.get("k") == "Lit"]
@@ -332,10 +357,64 @@ def peel(t):
     return t
 
 
+def str_of(P, n, depth=0):
+    """string value of a literal or of a workspace constant defined by one; None otherwise"""
+    v = lit_value(n)
+    if isinstance(v, str):
+        return v
+    while isinstance(n, dict) and n.get("k") in ("AddrOf", "DropTemps", "Use", "Cast", "Type") and isinstance(n.get("e"), dict):
+        n = n["e"]
+    if isinstance(n, dict) and n.get("k") == "Path" and "def" in n and depth < 2:
+        c = P.fns.get(norm(n["def"]))
+        if c is not None and str(c.kind).startswith(("Const", "Static")):
+            return str_of(P, c.body, depth + 1)
+    return None
+
+
+# adaptors / in-place operations that cut a sequence short or reorder it whatever its elements are (content filters — filter,
+# filter_map, retain — are the very purpose of a remover and are judged by the names they compare instead)
+TRUNCATING = {"skip", "skip_while", "take", "take_while", "step_by", "rev", "dedup", "dedup_by", "dedup_by_key", "unique", "unique_by",
+              "sorted", "sorted_by", "sorted_by_key", "map_while", "sort", "sort_by", "sort_by_key", "sort_unstable", "sort_unstable_by",
+              "sort_unstable_by_key", "sort_by_cached_key", "reverse", "truncate", "split_off", "swap_remove", "rotate_left", "rotate_right"}
+COLLECTING = {"push", "push_back", "insert", "extend", "push_str", "extend_from_slice", "append"}
+
+
+def lossless_traversal(P, R, rule, fns, what):
+    """A function that copies a document minus some named elements visits every element: a loop that builds the output is not left
+    early (`break`/`return` where `continue` was meant drops everything after the element that triggered it) and no truncating or
+    reordering adaptor is applied.  One instance per function that traverses."""
+    for g in fns:
+        early, cut = [], sorted({x["method"] for x in g.walk() if x.get("k") == "MethodCall" and x.get("method") in TRUNCATING})
+        traverses = False
+        for idx, (x, _) in enumerate(g.nodes()):
+            if x.get("k") == "Loop" and any(y.get("k") == "MethodCall" and y.get("method") in COLLECTING for y in subnodes(x)):
+                traverses = True
+            if x.get("k") in ("Break", "Ret") and "desugar" not in (x.get("x") or ""):
+                ctx = enclosing_contexts(g, idx)
+                kinds = [c_[0] for c_ in ctx]
+                if "loop" not in kinds or ("closure" in kinds and kinds.index("closure") < kinds.index("loop")):
+                    continue
+                loop = [c_ for c_ in ctx if c_[0] == "loop"][0][1]
+                if any(y.get("k") == "MethodCall" and y.get("method") in COLLECTING for y in subnodes(loop)):
+                    early.append(x.get("k").lower())
+        traverses = traverses or any(x.get("k") == "MethodCall" and x.get("method") in ("filter", "filter_map", "retain", "map", "flat_map") for x in g.walk())
+        if not traverses:
+            continue
+        key = "lossless:" + short(g.path)
+        if early:
+            R.violated(rule, key, "%s leaves the loop that copies the %s early (`%s` where the element was to be skipped): every element after the "
+                       "one that triggers it is dropped from the emitted schema" % (g.path, what, "`/`".join(sorted(set(early)))), loc=g.loc())
+        elif cut:
+            R.violated(rule, key, "%s applies %s while copying the %s: elements are cut off or reordered whatever their name" % (g.path, cut, what), loc=g.loc())
+        else:
+            R.holds(rule, key, "every element is visited; only content filters decide what is dropped", loc=g.loc())
+
+
 def r16c(P, R):
     nb = P.fn("nitrogql_cli::builtins::nitrogql_builtins")
     rg = P.fn("nitrogql_cli::generate::run_generate")
     rb = builtin_remover(P, rg)
+    rscope = scope_fns(P, rb)
     # names defined
     defined = set()
     for n in nb.walk():
@@ -343,20 +422,26 @@ def r16c(P, R):
             for f in n["fields"]:
                 if f["name"] == "name":
                     for x in subnodes(f["e"]):
-                        if x.get("k") == "Lit" and x.get("lk") == "str":
-                            defined.add(x["v"])
+                        v = str_of(P, x) if x.get("k") in ("Lit", "Path") else None
+                        if v is not None:
+                            defined.add(v)
     compared = []
-    for g in scope_fns(P, rb):
+    for g in rscope:
+        negated_helper = g.path != rb.path and g.sig_output == "bool" and all(
+            any(p_.get("k") == "Unary" and p_.get("op") == "Not" for p_ in h.parents_of(i)[:2])
+            for h in rscope for i, (c, _) in enumerate(h.nodes()) if c.get("k") in ("Call", "MethodCall") and call_name(c) == g.path)
         for n in g.walk():
             if n.get("k") == "Binary" and n.get("op") in ("!=", "=="):
                 for side in (n["l"], n["r"]):
-                    v = lit_value(side)
+                    v = str_of(P, side)
                     if isinstance(v, str):
-                        compared.append((n.get("op"), v, g.path == rb.path))
+                        # `==` inside a bool helper that is only used negated is the same filter as `!=` at the call site
+                        plain = (n.get("op") == "!=" and g.path == rb.path) or (n.get("op") == "==" and negated_helper)
+                        compared.append((n.get("op"), v, plain))
     R.floor("R16-c", "nitrogql-only directive definitions", len(defined), 1)
     R.floor("R16-c", "name filters in remove_builtins", len(compared), 2)
-    for op, v, own in compared:
-        if v in defined and not (op == "!=" and own):
+    for op, v, plain in compared:
+        if v in defined and not plain:
             # `==` (or a comparison inside a helper predicate): kept or dropped depends on how the result is used
             R.undecided("R16-c", "filter:%s" % v, "the comparison with `%s` is not a plain `!=` filter in %s; its polarity is not decided" % (v, rb.name), loc=rb.loc())
             continue
@@ -373,18 +458,37 @@ def r16c(P, R):
                        "(names filtered: %s)" % (d, sorted(v for _, v, _ in compared)), loc=rb.loc())
         else:
             R.undecided("R16-c", "covered:%s" % d, "%s does not filter by comparing names with literals; not decided" % rb.name, loc=rb.loc())
-    # the server schema is printed from remove_builtins(..) in both LoadedSchema arms, into a JsStringWriter
-    pv = Prov(rg)
-    calls = [n for n in rg.walk() if n.get("k") == "MethodCall" and n.get("method") == "print_graphql"]
-    R.floor("R16-c", "server-schema print sites", len(calls), 2)
-    for i, c in enumerate(calls):
-        # what is printed passes through the remover — directly or inside a helper that prepares the document
-        a = pv.deep_atoms(c["recv"])
-        R.check("R16-c", "server-route:%d" % i, has_call(a, rb.path),
-                "printed schema derives from remove_builtins(..)", "server schema is printed without %s" % rb.name, loc=rg.loc())
+    # everything but the named directive survives: the remover visits every definition and every directive application
+    lossless_traversal(P, R, "R16-c", rscope, "definitions / directive applications")
+    # the server schema is printed from remove_builtins(..) into a JsStringWriter — in run_generate or a helper it calls.  A print
+    # site belongs to the server route when its writer is the template-literal writer or its document comes from the remover.
+    sites = []
+    for g in scope_fns(P, rg):
+        pv = None
+        for n in g.walk():
+            if n.get("k") == "MethodCall" and n.get("method") == "print_graphql" and n["args"]:
+                pv = pv or Prov(g)
+                a = pv.deep_atoms(n["recv"])
+                js = "JsStringWriter" in norm(n["args"][0].get("t", ""))
+                if js or has_call(a, rb.path):
+                    sites.append((g, n, a, js))
+    R.floor("R16-c", "server-schema print sites", len(sites), 1)
+    for i, (g, c, a, js) in enumerate(sites):
+        # what is printed passes through the remover — directly, inside a helper that prepares the document, or before the call
+        # of the helper that prints
+        ok = has_call(a, rb.path)
+        if not ok and g.path != rg.path and any(x[0] == "param" for x in a):
+            callers = [(h, x) for h in scope_fns(P, rg) for x in h.walk() if x.get("k") in ("Call", "MethodCall") and call_name(x) == g.path]
+            if callers and all(any(has_call(Prov(h).deep_atoms(arg), rb.path) for arg in x["args"]) for h, x in callers):
+                ok = True
+            elif not callers:
+                R.undecided("R16-c", "server-route:%d" % i, "the printed document is a parameter of %s whose callers were not found" % g.name, loc=g.loc())
+                continue
+        R.check("R16-c", "server-route:%d" % i, ok,
+                "printed schema derives from remove_builtins(..)", "server schema is printed without %s" % rb.name, loc=g.loc())
         wt = norm(c["args"][0].get("t", ""))
-        R.check("R16-d", "server-writer:%d" % i, "JsStringWriter" in wt, "printed into the escaping JsStringWriter",
-                "server schema is printed into `%s`, not the template-literal writer" % wt, loc=rg.loc())
+        R.check("R16-d", "server-writer:%d" % i, js, "printed into the escaping JsStringWriter",
+                "server schema is printed into `%s`, not the template-literal writer" % wt, loc=g.loc())
 
 
 def r16g(P, R):
@@ -414,8 +518,9 @@ def r16g(P, R):
                     "the transformation filters by names %s" % removed, loc=f.loc())
         else:
             R.undecided("R16-g", "removes-only-model", "the transformation does not select what it removes by comparing names with literals", loc=f.loc())
-        bad = [c["method"] for c in f.walk() if c.get("k") == "MethodCall" and c["method"] in (LOSSY_OR_REORDERING - {"filter"})]
+        bad = sorted({c["method"] for g in scope_fns(P, f) for c in g.walk() if c.get("k") == "MethodCall" and c["method"] in TRUNCATING})
         R.check("R16-g", "no-other-loss", not bad, "no truncating/reordering adaptor", "the transformation applies %s" % bad, loc=f.loc())
+        lossless_traversal(P, R, "R16-g", scope_fns(P, f), "definitions / fields / directive applications")
 
 
 RULES = [("R16-a", r16a), ("R16-b", r16b), ("R16-c", r16c), ("R16-e", r16e), ("R16-f", r16f), ("R16-g", r16g)]
